@@ -134,6 +134,21 @@ std::vector<K> place(const std::vector<long long> &off, int where, Rng &rng, boo
             std::sort(d.begin(), d.end());
             return d;
         }
+        if (where == 4 && sizeof(K) >= 4) {
+            // clustered: dense groups (steps of 0 or 1) separated by gaps of 2^j for random j: steep and flat segments side by side
+            size_t big = 0;
+            for (size_t i = 1; i < off.size(); ++i) big += off[i] - off[i - 1] > 1;
+            int maxbits = (int) sizeof(K) * 8 - 2;
+            while (maxbits > 8 && (long double) (big + 1) * std::pow(2.0L, maxbits) > (long double) room / 2) --maxbits;
+            Wide<K> cur = lo + (rng.chance(1, 2) ? room / 2 : (Wide<K>) rng.below(1000));
+            for (size_t i = 0; i < off.size(); ++i) {
+                if (i) { long long dd = off[i] - off[i - 1]; cur += dd <= 1 ? (Wide<K>) dd : ((Wide<K>) 1 << rng.range(3, (uint64_t) maxbits)) + (Wide<K>) rng.below(7); }
+                if (cur > hi) cur = hi;
+                d.push_back(K(cur));
+            }
+            wide = true;
+            return d;
+        }
         Wide<K> basev;
         if (where == 1) basev = lo;
         else if (where == 2) basev = hi - span;
